@@ -353,19 +353,43 @@ func (w *world) build(s *vpShape) built {
 }
 
 // ---------------------------------------------------------------- abstraction: real object (+ shape for signature flags) -> Coq term
+//
+// Terms are kept short (parsing dominates the cost of a cases file): numerals that are direct constructor arguments
+// take the scope of the argument type (N / Z), repeated sub-terms (points, facts) are let-bound per case, the
+// suffrages are definitions in the header of the file.
 
-func coqPoint(p base.StagePoint) string {
-	return fmt.Sprintf("(mkPoint %s %s %s)", vh.Z(p.Height().Int64()), vh.ZU(p.Round().Uint64()), vh.Bool(p.Stage() == base.StageACCEPT))
+type termEnv struct {
+	w     *world
+	lets  []string
+	names map[string]string
 }
 
-func (w *world) coqFact(f base.BallotFact) string {
+func (e *termEnv) bind(prefix, term string) string {
+	if n, ok := e.names[term]; ok {
+		return n
+	}
+	n := fmt.Sprintf("%s%d", prefix, len(e.names))
+	e.names[term] = n
+	e.lets = append(e.lets, fmt.Sprintf("let %s := %s in ", n, term))
+	return n
+}
+
+func (e *termEnv) point(p base.StagePoint) string {
+	h := fmt.Sprintf("%d", p.Height().Int64())
+	if p.Height().Int64() < 0 {
+		h = "(" + h + ")"
+	}
+	return e.bind("p", fmt.Sprintf("mkPoint %s %d %s", h, p.Round().Uint64(), vh.Bool(p.Stage() == base.StageACCEPT)))
+}
+
+func (e *termEnv) fact(f base.BallotFact) string {
 	var exp []string
 	if ef, ok := f.(isaac.ExpelBallotFact); ok {
 		for _, h := range ef.ExpelFacts() {
-			exp = append(exp, vh.N(w.expelID(h)))
+			exp = append(exp, fmt.Sprintf("%d", e.w.expelID(h)))
 		}
 	}
-	return fmt.Sprintf("(mkFact %s %s %s)", vh.N(w.factID(f.Hash())), coqPoint(f.Point()), vh.List(exp))
+	return e.bind("f", fmt.Sprintf("mkFact %d %s %s%%N", e.w.factID(f.Hash()), e.point(f.Point()), vh.List(exp)))
 }
 
 func th10Of(t base.Threshold) int64 { return int64(math.Round(t.Float64() * 10)) }
@@ -373,15 +397,16 @@ func th10Of(t base.Threshold) int64 { return int64(math.Round(t.Float64() * 10))
 func (w *world) coqSuf() string {
 	var ps []string
 	for _, n := range w.suf.Nodes() {
-		ps = append(ps, vh.Tuple(vh.N(uint64(w.nodeIDs[n.Address().String()])), vh.N(uint64(w.keyIDs[n.Publickey().String()]))))
+		ps = append(ps, fmt.Sprintf("(%d,%d)", w.nodeIDs[n.Address().String()], w.keyIDs[n.Publickey().String()]))
 	}
-	return vh.List(ps)
+	return vh.List(ps) + "%N"
 }
 
 // coqVP renders the abstraction of the real voteproof b.vp.  Everything is read from the real object (addresses, keys,
 // fact hashes, order of sign facts and expels, threshold, majority, finished) except "the signature verifies", which is
 // what the shape asked for (signed with the right or with another network id).
 func (w *world) coqVP(s *vpShape, b built) string {
+	e := &termEnv{w: w, names: map[string]string{}}
 	vp := b.vp
 	kind := "Plain"
 	var expels []base.SuffrageExpelOperation
@@ -394,13 +419,13 @@ func (w *world) coqVP(s *vpShape, b built) string {
 	}
 	maj := "None"
 	if m := vp.Majority(); m != nil {
-		maj = vh.Some(w.coqFact(m))
+		maj = "(Some " + e.fact(m) + ")"
 	}
 	var sfs []string
 	for i, sf := range vp.SignFacts() {
-		sfs = append(sfs, fmt.Sprintf("(mkSF %s %s %s %s)",
-			vh.N(uint64(w.nodeIDs[sf.Node().String()])), vh.N(uint64(w.keyIDs[sf.Signer().String()])),
-			vh.Bool(!s.SFs[i].BadSig), w.coqFact(sf.Fact().(base.BallotFact))))
+		sfs = append(sfs, fmt.Sprintf("mkSF %d %d %s %s",
+			w.nodeIDs[sf.Node().String()], w.keyIDs[sf.Signer().String()],
+			vh.Bool(!s.SFs[i].BadSig), e.fact(sf.Fact().(base.BallotFact))))
 	}
 	// expels in the order the voteproof holds them; the shape of each is found by operation hash
 	byHash := map[string][]int{}
@@ -423,15 +448,22 @@ func (w *world) coqVP(s *vpShape, b built) string {
 		var signs []string
 		for _, sg := range op.(isaac.SuffrageExpelOperation).BaseNodeOperation.NodeSigns() {
 			nid := w.nodeIDs[sg.Node().String()]
-			signs = append(signs, fmt.Sprintf("(mkNS %s %s %s)", vh.N(uint64(nid)),
-				vh.N(uint64(w.keyIDs[sg.Signer().String()])), vh.Bool(!bad[nid])))
+			signs = append(signs, fmt.Sprintf("mkNS %d %d %s", nid, w.keyIDs[sg.Signer().String()], vh.Bool(!bad[nid])))
 		}
 		ef := op.ExpelFact()
-		exps = append(exps, fmt.Sprintf("(mkExpel %s %s %s %s %s)", vh.N(w.expelID(ef.Hash())),
-			vh.N(uint64(w.nodeIDs[ef.Node().String()])), vh.Z(ef.ExpelStart().Int64()), vh.Z(ef.ExpelEnd().Int64()), vh.List(signs)))
+		z := func(x int64) string {
+			if x < 0 {
+				return fmt.Sprintf("(%d)", x)
+			}
+			return fmt.Sprintf("%d", x)
+		}
+		exps = append(exps, fmt.Sprintf("mkExpel %d %d %s %s %s", w.expelID(ef.Hash()),
+			w.nodeIDs[ef.Node().String()], z(ef.ExpelStart().Int64()), z(ef.ExpelEnd().Int64()), vh.List(signs)))
 	}
-	return fmt.Sprintf("(mkVP %s %s %s %s %s %s %s)", kind, coqPoint(vp.Point()), vh.Z(th10Of(vp.Threshold())),
+	pt := e.point(vp.Point())
+	body := fmt.Sprintf("mkVP %s %s %d %s %s %s %s", kind, pt, th10Of(vp.Threshold()),
 		vh.Bool(vp.Result() != base.VoteResultNotYet), maj, vh.List(sfs), vh.List(exps))
+	return "(" + strings.Join(e.lets, "") + body + ")"
 }
 
 func opKey(op base.SuffrageExpelOperation) string {
